@@ -21,7 +21,7 @@ RULE = ("same grammar/weight/enumerator generator as C02 (independent random str
 ASSUMPTIONS = ["floating-point: probabilities are compared as exact rationals of the floats the grammar holds, with a relative tolerance 2^-40 for the enumerators' own float products / sums of logarithms",
                "a run cut by the time limit (bee search blow-up, see C02) is still checked on the prefix it produced",
                "recursive (infinite) grammars and the prefix-completeness clause on them are covered by theorem C03_prefix_complete only (finite grammars: sorted + complete); no correspondence leg drives CFG.infinite here",
-               "unambiguous-grammar heap search: see the U-grammar entries"]
+               "u-heap-search is checked against the exact probability including the start-symbol weight; the bucket order of u-bucket-search is not checked"]
 
 
 
@@ -45,6 +45,10 @@ def to_model(case, io):
     if not usable(io) or io.get("skip") or not io["out"]:
         return []
     en = case["enum"]
+    if en == "hs_u":
+        return [(12, [io["utable"], io["starts"], io["uweights"], io["sweights"], [1, 2 ** 40], io["out"]])]
+    if en == "hs_bucket_u":
+        return []       # bucket order on unambiguous grammars is not checked (only exactly-once, C02)
     tb, st, out = io["table"], io["start"], io["out"]
     if en in ("hs", "bps"):
         return [(2, [tb, st, 1, io["weights"], [1, 2 ** 40], out])]
@@ -60,6 +64,8 @@ def to_model(case, io):
 def costs_consistent(case, io):
     """the integer rule costs the enumerator works with are those of its weights"""
     en = case["enum"]
+    if "costs" not in io:
+        return True
     if en not in ("bs", "cd"):
         return True
     mult = 10 ** case["params"].get("threshold", 2) if en == "bs" else 1.0 / case["params"].get("precision", 1e-5)
@@ -73,12 +79,21 @@ def costs_consistent(case, io):
 
 def model_obs(case, raws, io):
     if not raws:
-        return None
+        return {"sorted": 1, "detail": None, "costs_ok": 1, "n_out": len(io["out"]), "unchecked": True} \
+            if usable(io) and case["enum"] == "hs_bucket_u" else None
     r = raws[0]
     mo = {"sorted": r[0], "detail": r[1] if isinstance(r[1], int) else None,
           "costs_ok": 1 if costs_consistent(case, io) else 0, "n_out": len(io["out"])}
     if isinstance(r[1], list):
         mo["keys_head"] = r[1][:12]
+        worst, mx = 0, None
+        for k in r[1]:
+            if mx is not None and mx - k > worst:
+                worst = mx - k
+            mx = k if mx is None else max(mx, k)
+        mo["worst_inversion_units"] = worst
+        if case["enum"] == "cd":
+            mo["worst_inversion_log"] = worst * case["params"].get("precision", 1e-5)
     return mo
 
 
@@ -93,7 +108,7 @@ def agree(case, io, mo):
 
 
 def nontrivial(case, mo):
-    return mo is not None and mo["n_out"] >= 5 and case["weights"]["kind"] != "uniform"
+    return mo is not None and mo["n_out"] >= 5 and case["weights"]["kind"] != "uniform" and not mo.get("unchecked")
 
 
 def describe(case, mo):
@@ -103,6 +118,9 @@ def describe(case, mo):
 
 
 def classify(case, io, mo):
+    if case["enum"] == "cd" and mo is not None and mo["sorted"] == 0 and mo["costs_ok"] == 1 \
+            and mo.get("worst_inversion_log", 1.0) <= 0.25:
+        return "c03_cd_order_inversions"
     if C02.hs_ttcfg_crash(case, io):
         return "c03_heap_search_ttcfg_order"
     if case["grammar"]["kind"] == "size" and case["enum"] in ("hs", "hs_bucket") and mo is not None \
